@@ -5,6 +5,7 @@ usage: python -m harness.drivers.d_pair IN.ndjson OUT.ndjson families
 """
 import json, os, sys, multiprocessing as mp
 
+from harness.drivers import pmap
 import optree
 from harness import vuniv as U
 from harness.drivers.d_tree import proj_path, proj_acc
@@ -169,8 +170,8 @@ def main():
         d = json.loads(l)
         d['fams'] = fams
         lines.append(json.dumps(d))
-    with mp.Pool(int(os.environ.get('VERIF_PROCS', '16')), initializer=init) as pool, open(outp, 'w') as fh:
-        for res in pool.imap(work, lines, chunksize=16):
+    with open(outp, 'w') as fh:
+        for res in pmap(work, lines, init=init, chunksize=16):
             for c in res:
                 fh.write(c + '\n')
 
